@@ -43,7 +43,7 @@ class Query:
     def __init__(self, name, harness, defines=None, unwind=8, unwindset=None, models=False, ndebug=True,
                  checks='none', covers=(999,), timeout=600, mem_gb=16, diff_random=6, diff_inputs=(),
                  extra_cbmc=(), extra_clang=(), rtti=False, desc='', known=None, sat=None, symbolic='',
-                 bounds=None, expect_fail=(), exceptions_native=False, env=False, uf_mul=False, precise_defines=None, precise_sat=None):
+                 bounds=None, expect_fail=(), exceptions_native=False, env=False, uf_mul=False, precise_defines=None, precise_sat=None, gen_files=None, meta=None, only_asserts=None):
         self.name = name
         self.harness = harness
         self.defines = dict(defines or {})
@@ -70,6 +70,9 @@ class Query:
         self.uf_mul = uf_mul
         self.precise_defines = dict(precise_defines or {})
         self.precise_sat = precise_sat
+        self.gen_files = dict(gen_files or {})
+        self.meta = meta
+        self.only_asserts = set(only_asserts) if only_asserts else None
 
     def dflags(self):
         return ['-D%s=%s' % (k, v) if v is not None else '-D%s' % k for k, v in sorted(self.defines.items())]
@@ -95,6 +98,10 @@ def build(q, wd):
     os.makedirs(wd, exist_ok=True)
     src = os.path.join(HARNESS_DIR, q.harness)
     inc = ['-I', HARNESS_DIR]
+    for fn, text in q.gen_files.items():
+        open(os.path.join(wd, fn), 'w').write(text)
+    if q.gen_files:
+        inc = ['-I', wd] + inc
     if q.env:
         inc = ['-I', os.path.join(VERIF, 'models_env')] + inc
     model_inc = ['-I', MODELS_DIR] if q.models else []
@@ -317,6 +324,9 @@ def _run_query_once(q, root, seed):
                             res.setdefault('witness_samples', []).append({'cover': aid, 'inputs': tr[:40], 'native_output': on.split('\n')[:6]})
                         else:
                             res['notes'].append('witness %d not reproduced natively: %s' % (aid, on[-300:]))
+                    continue
+                if q.only_asserts is not None and aid < 8000 and aid not in q.only_asserts:
+                    res.setdefault('other_property_failures', []).append(aid)  # belongs to another property's check of the same harness
                     continue
                 if aid >= 8000:
                     raise Inconclusive('bound exceeded or library throw helper reached (assert id %d) in %s' % (aid, q.name))
